@@ -10,18 +10,20 @@ props=[json.loads(l) for l in open('/verif/properties.jsonl')]
 used=[]
 for d in sorted(glob.glob('/verif/seeded/*')):
     name=os.path.basename(d); parts=name.split('-')
-    pid=parts[0]; idea=' '.join(p for p in parts[1:] if p not in ('r2','r3','r4','r5','r6','1','2'))
+    pid=parts[0]; idea=' '.join(p for p in parts[1:] if p not in ('r2','r3','r4','r5','r6','r7','r8','1','2'))
     used.append(f"  - [{pid}] {idea}")
 allused='\n'.join(used)
 themes=[
+ "state that survives a call: package-level variables, sync.Pool, caches keyed by something too coarse, lazily built tables; a second or third call (or a call of a different kind in between) behaves differently from the first",
+ "what comes back together with an error: partial results, which of several errors wins, error counts and limits, messages built from stale data, a later diagnostic suppressed or duplicated",
+ "numbers: int64 extremes, negative zero, NaN and infinities, float formatting and parsing, exponent and hexadecimal forms, very long numerals, integer division and modulo of negative operands",
+ "text: escapes in string literals, invalid UTF-8, byte order marks, CR and CRLF line ends, NUL bytes, tabs, very long lines, multi-byte characters at the edge of a buffer or of a token",
+ "how control flow is compiled: short-circuit jumps, nested and/or/not chains, local slots reused after a block ends, POP/POPN at scope exit, blocks nested near the limits, expressions statements whose value is discarded",
+ "bind selectors and binding targets working together: first/last/all/one with struct, slice and pointer targets, nested blocks, named versus unnamed blocks, several binds in one program, a bind after an error",
+ "position accounting: line and column after tabs, CR, multi-byte characters and comments, positions at the end of input, in the second chunk of a file, of tokens spanning lines, positions stored in dumps",
+ "the concurrent machinery of the file entry points: buffered channel capacities, select with several ready cases, early return paths, who waits for whom at shutdown, behaviour when the input keeps producing after the parser has given up",
  "the seam between two mechanisms of the library: source positions after dump and load, diagnostics under chunked reading, binding after a runtime error, tracing or disassembly of loaded programs, variables next to fields of the same name",
- "goroutine lifecycle and channel protocol of the file-reading entry points: who closes what and when, error precedence, what happens to data that arrives late or together with an error",
- "grammar and lexer corner cases: statement separators, comments at the very end of input, keywords used as field names or block types, assignments in unusual positions, adjacent tokens without blanks, numbers followed by letters",
- "type rules of the operators: int/float promotion, comparison across types, coercion on the right of '+', what and/or return, evaluation order and side effects of embedded assignments",
- "the bytecode encoding: varint class boundaries, jump operands, the positions table, the line table, typed constants, name and version header",
- "reflection binding details: tags, embedded structs, pointer and interface fields, name matching, slices versus structs, what is left in the target on error",
  "option plumbing and the command line tool: which writer gets what, flags in odd orders, exit codes, names derived for dump files, behaviour when a writer or file is unusable",
- "buffers and resource handling: buffer sizes and growth, reuse between calls, what is retained after a call returns, limits that are checked too late or one off",
 ]
 for p in props:
     pid=p['id']; d='/tmp/mut%d/' % ROUND + ''+pid
